@@ -1081,7 +1081,7 @@ pub fn run(ctx: &mut Ctx, eng: &mut dyn Engine) {
                         ctx.step(eng, "benc readall");
                         // D24 (finding): an empty object from a buffer is sent by RaptorQ/Raptor as `parity` repair packets of a
                         // block that does not exist, from a stream as the lone empty packet
-                        let cls = if len == 0 && (scheme == "raptorq" || scheme == "raptor") { "empty-object-fec-buffer-vs-stream" } else { "stream-ne-buffer" };
+                        let cls = if len == 0 && (scheme == "raptorq" || scheme == "raptor") { "C20:empty-object-fec-buffer-vs-stream" } else { "C20:stream-ne-buffer" };
                         ctx.oracle_fail(
                             cls,
                             &format!("packet sequence from source `{}` differs from the buffer source for the same bytes: {}", src, c.op()),
